@@ -6,6 +6,7 @@
    to go, `act t` the part that has arrived, `sto t` the contents incl. transit. *)
 From Coq Require Import QArith Qminmax List Bool Arith.
 From WSI Require Import Vqip Pow Tank Arc QTank Run TankLaws ArcLaws QTankLaws QueueLaws.
+From WSI Require Import Distrib Kinds TimeArea DecayQTank QTankErasure Erasure TimeAreaLaws.
 Import ListNotations.
 Open Scope Q_scope.
 
@@ -96,6 +97,24 @@ Theorem C09_queue_arc_closeout_counts_down : forall q c, conserved c ->
   q_qs_ (q_end q) = q_qs q.
 Proof. exact q_end_spec. Qed.
 Print Assumptions C09_queue_arc_closeout_counts_down.
+
+(* a time-area push into a Sewer or a QueueGroundwater (every fraction of the flow sent into the queue tank with its
+   own delay): while in transit the water counts towards the contents - the tank declares what has arrived plus what
+   is queued (plus decay still to be booked) after the push as before it *)
+Theorem C09_time_area_push_keeps_the_contents_declared : forall S (n : qnode S) v, wet v ->
+  (forall tf, In tf (qn_ta S n) -> 0 <= snd tf <= 1) ->
+  qledger (qn_t S n) /\ plain_quiet (qn_t S n) ->
+  qledger (qn_t S (fst (qn_push_timearea S n v))) /\ plain_quiet (qn_t S (fst (qn_push_timearea S n v))).
+Proof. exact qn_push_timearea_ledger. Qed.
+Print Assumptions C09_time_area_push_keeps_the_contents_declared.
+
+(* a decaying queue tank keeps the timetable of the plain one: the same operations on a QueueTank and a
+   DecayQueueTank of the same dimensions make the same VOLUMES available at every step (with the arrival theorems
+   above: neither early nor late for the decaying tank either) *)
+Theorem C09_decaying_queue_tank_keeps_the_timetable : forall ops ops' t u, same_qt t u -> Forall2 same_op ops ops' ->
+  Forall2 same_vol (qrun t ops) (qrun u ops').
+Proof. exact sq_run. Qed.
+Print Assumptions C09_decaying_queue_tank_keeps_the_timetable.
 
 (* the hypotheses are met by a concrete non-trivial state *)
 Example C09_nonvacuous :
